@@ -84,6 +84,13 @@ pub fn probe_timestamps(rng: &mut Rng, r: &RefTz, n_random: u64) -> Vec<i64> {
             ts.push(feb28 + rng.below(3 * 86_400) as i64);
         }
     }
+    // 32-bit time_t limits (1901, 2038, 2106) and their neighbours: where a 4-byte transition time or an `as i32`
+    // of the timestamp wraps
+    for m in [1i64 << 31, -(1i64 << 31), 1i64 << 32, (1i64 << 31) + (1i64 << 30)] {
+        for d in [-1i64, 0, 1, 86_400, -86_400] {
+            ts.push(m + d);
+        }
+    }
     let lo = year_start(1900);
     let hi = year_start(2500);
     for _ in 0..n_random {
